@@ -39,6 +39,7 @@ def _canon_leaf(t):
 FUNCS = {
     'int': lambda a: int(a), 'round': lambda a: round(a), 'floor': lambda a: math.floor(a), 'ceil': lambda a: math.ceil(a), 'trunc': lambda a: math.trunc(a),
     'abs': lambda a: abs(a), 'float': lambda a: float(a), 'bool': lambda a: bool(a),
+    'isfinite': lambda a: math.isfinite(a), 'isnan': lambda a: math.isnan(a), 'isinf': lambda a: math.isinf(a),
 }
 
 
@@ -153,6 +154,8 @@ class Evaluator:
             if name in FUNCS and len(t[2]) == 1:
                 try:
                     return FUNCS[name](s.ev(t[2][0]))
+                except OverflowError as exc:
+                    raise EvalRaises('OverflowError: %s' % exc)          # float(10**400), math.isfinite(10**400): the code itself raises here
                 except (TypeError, ValueError) as exc:
                     raise NotEvaluable(exc)
             if t[1][0] == 'b' and name in ('any', 'all', 'sum', 'tuple', 'list', 'max', 'min') and len(t[2]) == 1 and t[2][0][0] in ('gen', 'listcomp') and len(t[2][0][2]) == 1:
